@@ -166,6 +166,14 @@ pub fn gen(out: &mut Out, thorough: bool, seed: u64) {
     length_mutants("HTTP/1.1 200 OK\r\nContent-Length: {N}\r\n\r\nabc", &mut ms);
     length_mutants("HTTP/1.1 200 OK\r\nTransfer-Encoding: chunked\r\n\r\n{N}\r\nabc\r\n0\r\n\r\n", &mut ms);
     length_mutants("HTTP/1.1 {N} OK\r\n\r\n", &mut ms);
+    // a claimed length in EVERY place where one can stand, also next to another framing or a second length field: whichever of
+    // them the parser goes by, none may size a buffer
+    length_mutants("HTTP/1.1 200 OK\r\nTransfer-Encoding: chunked\r\nContent-Length: {N}\r\n\r\n3\r\nabc\r\n0\r\n\r\n", &mut ms);
+    length_mutants("HTTP/1.1 200 OK\r\nContent-Length: {N}\r\nTransfer-Encoding: chunked\r\n\r\n3\r\nabc\r\n0\r\n\r\n", &mut ms);
+    length_mutants("HTTP/1.1 200 OK\r\nContent-Length: {N}\r\nContent-Length: 3\r\n\r\nabc", &mut ms);
+    length_mutants("HTTP/1.1 200 OK\r\nContent-Length: 3\r\nContent-Length: {N}\r\n\r\nabc", &mut ms);
+    length_mutants("HTTP/1.1 200 OK\r\nTransfer-Encoding: chunked\r\n\r\n3\r\nabc\r\n{N}\r\nabc\r\n0\r\n\r\n", &mut ms);
+    length_mutants("HTTP/1.1 200 OK\r\nTransfer-Encoding: chunked\r\nAge: {N}\r\nRetry-After: {N}\r\nKeep-Alive: timeout={N}, max={N}\r\n\r\n0\r\n\r\n", &mut ms);
     for h in ["ffffffffffffffff", "7fffffffffffffff", "10000000000000000", "5d21dba00000", "80000000", "+3", "3;x=y", "3 ", "-3", "g"] {
         ms.push(format!("HTTP/1.1 200 OK\r\nTransfer-Encoding: chunked\r\n\r\n{}\r\nabc\r\n0\r\n\r\n", h).into_bytes());
     }
